@@ -201,7 +201,7 @@ class NumericArray(list):
           except:
             raise gfapy.ValueError("Value is not valid: {}\n".format(e)+
                 "Numeric array string: {}".format(string))
-          if not valid and not (e >= range[0] and e < range[1]):
+          if not (e >= range[0] and e < range[1]):
             raise gfapy.ValueError((
                     "NumericArray: "+
                     "value is outside of subtype {0} range\n"+
